@@ -72,7 +72,7 @@ RULE = ("%d seed structs (derived GetSeeds with 0..16 fields of Pubkey / u8 / u1
         "without the trailing empty seed) x random and boundary field values x program ids (runtime id through "
         "CurrentProgram, or a fixed StarFrameProgram) x candidate keys {canonical PDA by Seeds and by SeedsWithBump, a lower "
         "valid bump, a wrong bump, PDA of permuted seeds, PDA of a one-bit-perturbed field, PDA under another program, an "
-        "on-curve hash, random and zero keys} + client find/create for several bumps. non-trivial = the case contains at "
+        "on-curve hash, random and zero keys}, the candidate ACCOUNTS in five states (balance 0 / 1 / u64::MAX, system- / program- / foreign-owned, with and without data, signer / writable flags) + client find/create for several bumps. non-trivial = the case contains at "
         "least one candidate that passes validation and one that fails" % len(FAMILY))
 TRUSTED = [
     "Coq 8.16.1 kernel", "extraction (ExtrOcamlBasic only) + runner/driver.ml",
@@ -382,7 +382,13 @@ def gen_cases(rng, tier):
                 pm, pid = 0, list(PROG_ID)      # client and chain under the same program id
             elif k == 1:
                 pm = 1
-            cases.append(("g%d" % n, make_case(rng, sid, pm, pid)))
+            c = make_case(rng, sid, pm, pid)
+            # the candidate accounts' own state (balance, owner, data, flags) must not influence the decision: its class
+            # rides in the `trailing` flag (FAMILY: always true; the model reads it as a boolean, the harness as
+            # 1 + 2 * class).  class 0 = 1 lamport, system-owned, empty, no flags
+            if FAMILY[sid][3] and k >= 2:
+                c[66] = 1 + 2 * (k % 5)
+            cases.append(("g%d" % n, c))
             n += 1
     return cases
 
